@@ -389,7 +389,7 @@ def side(src: RefGraph, which: str, keep_attributes=True) -> RefGraph:
     return g
 
 
-def from_graphs(kind: str, R: RefGraph, P: RefGraph, TS) -> RefGraph:
+def from_graphs(kind: str, R: RefGraph, P: RefGraph, TS, trace=None) -> RefGraph:
     """model of Cls.from_graphs following the pinned case analysis with the
     geometric descriptor relation.  The representation (static vs. change)
     is implementation defined; the executor compares observables (C08) and
@@ -416,8 +416,10 @@ def from_graphs(kind: str, R: RefGraph, P: RefGraph, TS) -> RefGraph:
         r = R.astereo.get(a)
         p = P.astereo.get(a)
         t = TS.astereo.get(a) if TS is not None else None
+        br = None
         if t is not None and r is not None and p is not None and eq(t, r) and eq(r, p):
             g.astereo[a] = t
+            br = "atom:ts=r=p"
         elif t is not None and not (p is not None and eq(t, p)) and not (r is not None and eq(t, r)):
             ch = {"FLEETING": t}
             if p is not None:
@@ -425,25 +427,39 @@ def from_graphs(kind: str, R: RefGraph, P: RefGraph, TS) -> RefGraph:
             if r is not None:
                 ch["BROKEN"] = r
             g.achange[a] = ch
+            br = "atom:ts-differs-from-both"
         elif r is not None and p is not None and eq(r, p):
             g.astereo[a] = r
+            br = "atom:r=p"
         elif r is None and p is not None:
             g.achange[a] = {"FORMED": p}
+            br = "atom:only-p"
         elif p is None and r is not None:
             g.achange[a] = {"BROKEN": r}
+            br = "atom:only-r"
         elif r is not None and p is not None:
             g.achange[a] = {"FORMED": p, "BROKEN": r}
+            br = "atom:r!=p" + (":class-change" if r[0] != p[0] else "")
+        if trace is not None and br:
+            trace.append(br)
     for b in g.bonds:
         r = R.bstereo.get(b) if b in R.bonds else None
         p = P.bstereo.get(b) if b in P.bonds else None
+        br = None
         if r is not None and p is not None and eq(r, p):
             g.bstereo[b] = r
+            br = "bond:r=p"
         elif r is None and p is not None:
             g.bchange[b] = {"FORMED": p}
+            br = "bond:only-p"
         elif p is None and r is not None:
             g.bchange[b] = {"BROKEN": r}
+            br = "bond:only-r"
         elif r is not None and p is not None:
             g.bchange[b] = {"FORMED": p, "BROKEN": r}
+            br = "bond:r!=p"
+        if trace is not None and br:
+            trace.append(br + (":" + str(g.bonds[b].get("reaction")).lower() if br else ""))
     return g
 
 
